@@ -140,6 +140,17 @@ def classes():
         def construct_model(self):
             sim = self.simulator
             self.p = EventProducer()
+            # a run logger that takes itself off the simulator's list the
+            # first time it hears of the warm-up / the end of the
+            # replication; it subscribed before the statistics did
+            from pydsol.core.interfaces import ReplicationInterface as RI_
+
+            class OneShot(EventListener):
+                def notify(self_, e):
+                    sim.remove_listener(e.event_type, self_)
+            one = OneShot()
+            sim.add_listener(RI_.WARMUP_EVENT, one)
+            sim.add_listener(RI_.END_REPLICATION_EVENT, one)
             K = {"counter": S.SimCounter, "tally": S.SimTally,
                  "wtally": S.SimWeightedTally,
                  "pers": S.SimPersistent}[self.kind]
